@@ -644,6 +644,35 @@ func (g *gen) opnameFamily() {
 		m2.Nodes = append(m2.Nodes, mb.Node{Op: nm, In: []string{"y"}, Out: []string{"unused"}})
 		g.rawCase("opname", fmt.Sprintf("extra-last=%q", nm), m2.Bytes(), "bytes", true, "")
 	}
+	// node NAMES around an unknown operator: the same name as an earlier node (graph surgery: a node copied and only
+	// its op_type changed), as a later node, as a tensor, as an implemented operator; no name at all; all nodes nameless
+	for _, nm := range []string{"Erf", "relu", "NotAnOperator"} {
+		for pos := 0; pos < 3; pos++ {
+			for _, nn := range []string{"n0", "n1", "n2", "x", "y", "Relu", "Add", nm} {
+				m := ChainModel()
+				nodes := append([]mb.Node{}, m.Nodes...)
+				nodes[pos].Op, nodes[pos].Name = nm, nn
+				m.Nodes = nodes
+				g.rawCase("opname", fmt.Sprintf("op[%d]=%q named %q", pos, nm, nn), m.Bytes(), "bytes", true, "")
+			}
+			m := ChainModel()
+			nodes := append([]mb.Node{}, m.Nodes...)
+			for i := range nodes {
+				nodes[i].NoName = true
+			}
+			nodes[pos].Op = nm
+			m.Nodes = nodes
+			g.rawCase("opname", fmt.Sprintf("op[%d]=%q all nameless", pos, nm), m.Bytes(), "bytes", true, "")
+			m = ChainModel()
+			nodes = append([]mb.Node{}, m.Nodes...)
+			for i := range nodes {
+				nodes[i].Name = "node"
+			}
+			nodes[pos].Op = nm
+			m.Nodes = nodes
+			g.rawCase("opname", fmt.Sprintf("op[%d]=%q all named alike", pos, nm), m.Bytes(), "bytes", true, "")
+		}
+	}
 	// unknown operators under every node domain an exporter might write (the pinned tree ignores the field)
 	for _, dom := range []string{"ai.onnx", "ai.onnx.ml", "ai.onnx.training", "ai.onnx.preview.training", "com.microsoft", "com.microsoft.experimental", "org.pytorch.aten", "org.pytorch._caffe2", "com.example", "custom", "ai.onnx.preview", "pkg.onnxscript.torch_lib"} {
 		for _, nm := range []string{"Erf", "Adam", "Gradient", "NotAnOperator", "relu"} {
